@@ -798,6 +798,13 @@ func (b *c06Bat) tableSequences(ti int) {
 			return
 		}
 		name := ""
+		// an iterator the caller made before the calls and keeps using after each of them
+		var it *document.CellIterator
+		b.call(fmt.Sprintf("table-sequence(table %d)", ti), "Table.NewCellIterator (kept)", false, func(d *document.Document) {
+			if ts := c06Tables(d); ti < len(ts) && ts[ti] != nil {
+				it = ts[ti].NewCellIterator()
+			}
+		})
 		for k, o := range seq {
 			if k > 0 {
 				name += " ; "
@@ -809,6 +816,17 @@ func (b *c06Bat) tableSequences(ti int) {
 					op.f(ts[ti])
 				}
 			})
+			if it != nil && k%2 == 0 {
+				b.call(fmt.Sprintf("table-sequence(table %d)", ti), "walking a CellIterator made before: "+name, false, func(d *document.Document) {
+					for n := 0; n < 4096 && it.HasNext(); n++ {
+						if _, err := it.Next(); err != nil {
+							break
+						}
+					}
+					_ = it.Progress()
+					_ = it.Total()
+				})
+			}
 		}
 		key := ""
 		if p := c06Guard(func() {
